@@ -452,7 +452,10 @@ func runC10(seed uint64, n int, out, stats string, args []string) {
 				targets[b] = true
 			}
 		} else {
-			targets[0] = true                            // price update block (period start)
+			targets[0] = true                            // price update block (period start; the first block after InitChain)
+			if nb > int(stakePeriod) {
+				targets[int(stakePeriod)] = true // the second price update: a restart is an ordinary one here
+			}
 			targets[int(stakePeriod)-1] = true           // payout block (height % 12 == 0)
 			targets[1+r.Intn(int(stakePeriod)-2)] = true // a block in between (transactions)
 			if r.Intn(2) == 0 && p.VoteAt > 0 {
